@@ -535,6 +535,19 @@ func perturbNode(t *rapid.T, x spec.V) (spec.V, string) {
 		}
 		return out, "string"
 	case spec.KList, spec.KSet:
+		if x.T.E.K == spec.KString && len(x.Elems) >= 2 && rapid.IntRange(0, 2).Draw(t, "merge") == 0 {
+			// two adjacent string members fused into one whose text spells the
+			// way two members are written next to each other in the hash bytes of
+			// a collection ("a";"b"): a different value that an encoding without
+			// proper escaping cannot tell apart
+			i := rapid.IntRange(0, len(x.Elems)-2).Draw(t, "mergei")
+			if x.Elems[i].St == spec.Known && x.Elems[i+1].St == spec.Known {
+				sep := rapid.SampledFrom([]string{`";"`, `";"`, `\";\"`, `;`, `","`}).Draw(t, "sep")
+				m := spec.KnownStr(x.Elems[i].S + sep + x.Elems[i+1].S)
+				out.Elems = append(append(append([]spec.V(nil), out.Elems[:i]...), m), out.Elems[i+2:]...)
+				return out, "merge-members-with-separator-text"
+			}
+		}
 		if len(x.Elems) > 0 && rapid.Bool().Draw(t, "drop") {
 			i := rapid.IntRange(0, len(x.Elems)-1).Draw(t, "dropi")
 			out.Elems = append(append([]spec.V(nil), out.Elems[:i]...), out.Elems[i+1:]...)
